@@ -3,7 +3,7 @@ from harness.canon import hx, tx, unhx, untx, nats, unnats
 from bip_utils import (Bip32KeyData, Bip32KeyNetVersions, Bip32PathParser, Bip32Path, Bip32Slip10Ed25519,
                        Bip32Slip10Ed25519Blake2b, Bip32Slip10Nist256p1, Bip32Slip10Secp256k1, WifDecoder, WifEncoder,
                        WifPubKeyModes, Bip32KeyIndex, Bip32ChainCode, Bip32FingerPrint, Bip32Depth)
-from bip_utils.bip.bip32.bip32_key_ser import Bip32KeyDeserializer, _Bip32KeySerializer
+from bip_utils.bip.bip32.bip32_key_ser import Bip32KeyDeserializer, Bip32PrivateKeySerializer, Bip32PublicKeySerializer
 
 CLS = {"secp256k1": Bip32Slip10Secp256k1, "nist256p1": Bip32Slip10Nist256p1, "ed25519": Bip32Slip10Ed25519,
        "ed25519blake2b": Bip32Slip10Ed25519Blake2b}
@@ -44,7 +44,18 @@ def _childpub(c, pub, cc, depth, idx):
 
 def _serkey(ver, depth, fp, idx, cc, key):
     kd = Bip32KeyData(Bip32Depth(int(depth)), Bip32KeyIndex(int(idx)), Bip32ChainCode(unhx(cc)), Bip32FingerPrint(unhx(fp)))
-    return tx(_Bip32KeySerializer.Serialize(unhx(key), kd, unhx(ver)))
+    # public serialisers only (they take key objects): the key bytes of the request are turned into a key object of a curve that accepts them
+    from bip_utils import Secp256k1PrivateKey, Secp256k1PublicKey, Nist256p1PrivateKey, Nist256p1PublicKey
+    kb = unhx(key)
+    kv = Bip32KeyNetVersions(unhx(ver), unhx(ver))
+    if len(kb) == 33 and kb[0] == 0:
+        for cls in (Secp256k1PrivateKey, Nist256p1PrivateKey):
+            if cls.IsValidBytes(kb[1:]):
+                return tx(Bip32PrivateKeySerializer.Serialize(cls.FromBytes(kb[1:]), kd, kv))
+    for cls in (Secp256k1PublicKey, Nist256p1PublicKey):
+        if cls.IsValidBytes(kb):
+            return tx(Bip32PublicKeySerializer.Serialize(cls.FromBytes(kb), kd, kv))
+    raise ValueError("request key bytes are not a key of a supported curve")
 
 
 def _deserkey(pv, sv, s):
